@@ -105,12 +105,12 @@ Proof. exact doubling_once. Qed.
 Print Assumptions C05_doubling_once.
 (* ... and "doubled type" is every command, preamble address code, special and extended character, whatever the state
    (after the repair: backspace and extended characters no longer need a doubled mode command before them) *)
-Theorem C05_doubling_unconditional : forall s w,
+Theorem C05_doubling_unconditional_unfold : forall s w,
   doubled_type s w = (is_command w || is_pac w
                       || (match special_of w with Some _ => true | None => false end)
                       || (match extended_of w with Some _ => true | None => false end)).
 Proof. exact doubling_unconditional. Qed.
-Print Assumptions C05_doubling_unconditional.
+Print Assumptions C05_doubling_unconditional_unfold.
 (* PAC TO PAC TO: the second pair is skipped as a unit; PAC PAC TO TO: the offset is dropped (outside the domain) *)
 Theorem C05_pac_tab_unit_once : forall s p t n1 n2 n3 n4,
   r_err s = None -> is_pac p = true -> tab_of t <> None -> fst (handle_double s p) = false ->
@@ -534,6 +534,12 @@ Example C05_indent0_form_in_domain :
   row_ok (mkRow 15 0 0 16 [Ch 97]) = true /\ row_ok (mkRow 1 0 2 17 [Ch 97; Mid 14; Ch 98]) = true /\
   emit_row true (mkRow 15 0 0 16 [Ch 97]) = [38000; 38000; 24960].
 Proof. vm_compute. repeat split; reflexivity. Qed.
+(* audit (wave 7): the other hypotheses of C05_popon_refines_608_inline hold on the instance as well *)
+From PV Require Import proofs.SccInlineCorFacts.
+Example C05_inline_instance_event_hyps : exists evs spans,
+  res_map (pseg_event true 0) (wexpand exw_ws) = Ok evs /\ positive evs /\ after_show None evs /\
+  expected_with join_threshold evs = Ok spans.
+Proof. exact exw_event_hyps. Qed.
 (* ... and at the level of the SCC TEXT, through the Coq tokeniser (upper / lower hex, LF / CRLF / CR) *)
 From PV Require Import proofs.SccInlineCorFacts.
 Theorem C05_popon_refines_608_inline_text : forall d off ws evs spans up eol,
@@ -555,10 +561,10 @@ Theorem C05_writer_row_ok : forall row u line, 1 <= row <= 15 -> (u = 16 \/ u = 
   row_ok (mkRow row 0 0 u (map Ch line)) = true.
 Proof. exact writer_row_ok. Qed.
 Print Assumptions C05_writer_row_ok.
-Theorem C05_writer_row_emit : forall row u line,
+Theorem C05_writer_row_emit_unfold : forall row u line,
   emit_row true (mkRow row 0 0 u (map Ch line)) = [pac_word row u; pac_word row u] ++ pack true (map TCh line) None.
 Proof. exact writer_row_emit. Qed.
-Print Assumptions C05_writer_row_emit.
+Print Assumptions C05_writer_row_emit_unfold.
 Example C05_writer_row_instance : row_ok (mkRow 15 0 0 16 (map Ch [72; 105; 32; 116; 104; 101; 114; 101])) = true.
 Proof. exact writer_row_instance. Qed.
 
